@@ -1083,6 +1083,12 @@ class Interp:
             # structurally different containers of different length are unequal
             if isinstance(a, (list, tuple)) and isinstance(b, (list, tuple)) and len(a) != len(b):
                 return op == '!='
+            if isinstance(a, (list, tuple)) and isinstance(b, (list, tuple)) and type(a) is type(b):
+                # element-wise, left to right (Python semantics): unequal as soon as one pair is unequal
+                for x, y in zip(a, b):
+                    if not self.truth(self.compare('==', x, y, node)):
+                        return op == '!='
+                return op == '=='
             if isinstance(a, (ClassRef, Builtin, FuncRef)) and isinstance(b, (ClassRef, Builtin, FuncRef)):
                 return op == '!='
             # a constant of one primitive type never equals a constant of another
